@@ -289,10 +289,10 @@ def plan(tier, seed):
     q = tier == "quick"
     specs = []
     for dt in ("int16", "float32", "float64"):
-        for i in range(4 if q else 8):
-            specs.append({"kind": "pixels", "dtype": dt, "sub": i, "cases": 260 if q else 3000, "budget_s": 100 if q else 1500, "mp": 0 if q else 50})
+        for i in range(4 if q else 10):
+            specs.append({"kind": "pixels", "dtype": dt, "sub": i, "cases": 260 if q else 10000, "budget_s": 100 if q else 600, "mp": 0 if q else 50})
     for i in range(4 if q else 8):
-        specs.append({"kind": "cube", "sub": i, "cases": 40 if q else 400, "budget_s": 100 if q else 1500})
+        specs.append({"kind": "cube", "sub": i, "cases": 40 if q else 1500, "budget_s": 100 if q else 600})
     return specs
 
 
